@@ -41,6 +41,21 @@ class Outcome:
         self.stats[k] = self.stats.get(k, 0) + n
 
 
+def wellformed(data):
+    """The line format, independent of the library's decoder: exactly five integer fields and a payload separated by ';'
+    (trailing whitespace is not part of the line). Returns the six fields or None."""
+    if not isinstance(data, str):
+        return None
+    parts = data.rstrip().split(";")
+    if len(parts) != 6:
+        return None
+    try:
+        ints = [int(x) for x in parts[:5]]
+    except ValueError:
+        return None
+    return (*ints, parts[5])
+
+
 def parse_canon(line):
     """Independent canonical-form parser: five plain integers, payload, exactly one newline."""
     if not isinstance(line, str) or not line.endswith("\n") or line.count("\n") != 1:
@@ -189,6 +204,17 @@ class LockStep:
             self.pending[origin] = dict(exp=[], kind="rejected", concerned=set(), t=tok["t"], burst=None, sleeping=tok["sleeping"])
             return
         n, c, t, a, s, p = msg.node_id, msg.child_id, msg.type, msg.ack, msg.sub_type, msg.payload
+        wf = wellformed(data)
+        if wf is None or wf != (n, c, t, a, s, p):
+            # the library's own decoder calls this a frame, the line format (five integers and a payload, separated by
+            # ';') does not: whatever the decoder made of it, the line must have no effect
+            out.kinds.append("rejected-malformed-but-decoded")
+            out.count("rejected_lines")
+            after = snapshot(gw)
+            if after != tok["before"] or reply is not None or len(gw.tasks.queue) != tok["qlen"] or cbs or len(eng.subs) != tok["nsub"]:
+                out.v("C01", "malformed-line-decoded-and-effect", f"line {data!r} is not a frame (decoded as {(n, c, t, a, s, p)!r}) but it was accepted and had an effect", origin)
+            self.pending[origin] = dict(exp=[], kind="rejected", concerned=set(), t=tok["t"], burst=None, sleeping=tok["sleeping"])
+            return
         if spec.header_ok(version, n, c, t, a, s) is False:
             # the library accepted a line whose HEADER the serial API rules out for this version (id ranges, child-255
             # rules, ack, defined command / sub-type - the clauses C03 enumerates): it must still have no effect
